@@ -2,6 +2,7 @@
    Rejected evaluations (unknown / blank name, bad argument type) change nothing. *)
 From Ink.Engine Require Import Api Tie.
 From Ink.Shell Require Import RejectProofs.
+From Ink.Shell Require Import EvalFrame HostFrame FlowFrame FlowFootprint.
 
 Theorem eval_blank_rejected_noop : forall (I : iface) (name : text) args (w : world),
   w_async w = false -> trim name = [] ->
@@ -33,3 +34,41 @@ Check eval_bad_argument_rejected_noop :
   forallb passable args = false ->
   exists msg, evaluate_function I sw_now name (Some args) w = (OErr InvalidState msg, w).
 Print Assumptions eval_bad_argument_rejected_noop.
+
+(* ---------------- frame of a successful evaluation ---------------- *)
+(* whatever the evaluated function printed or did, when evaluate_function returns normally the
+   output stream of the main story (pending text and tags) is exactly what it was before the call *)
+Theorem evaluate_function_restores_output :
+  forall (I : iface) (sw : switches) (name : text) (args : option (list value)) (w : world)
+         (r : option value) (txt : text) (w' : world),
+    evaluate_function I sw name args w = (OOk (r, txt), w') ->
+    ss_out (w_state w') = ss_out (w_state w).
+Proof. exact EvalFrame.evaluate_function_restores_output. Qed.
+Check evaluate_function_restores_output :
+  forall (I : iface) (sw : switches) (name : text) (args : option (list value)) (w : world)
+         (r : option value) (txt : text) (w' : world),
+    evaluate_function I sw name args w = (OOk (r, txt), w') ->
+    ss_out (w_state w') = ss_out (w_state w).
+Print Assumptions evaluate_function_restores_output.
+
+(* ... it never touches the parked flows (any outcome) ... *)
+Theorem evaluate_function_commutes_with_parked_flows :
+  forall (I : iface) (v : option (list (text * flow))) (name : text) (args : option (list value)) (w : world),
+    evaluate_function I sw_now name args (uw v w) =
+    (let (o, w') := evaluate_function I sw_now name args w in (o, uw v w')).
+Proof. exact (fun I v name args => fc_evaluate_function v I sw_now now_no_alias name args). Qed.
+Check evaluate_function_commutes_with_parked_flows :
+  forall (I : iface) (v : option (list (text * flow))) (name : text) (args : option (list value)) (w : world),
+    evaluate_function I sw_now name args (uw v w) =
+    (let (o, w') := evaluate_function I sw_now name args w in (o, uw v w')).
+Print Assumptions evaluate_function_commutes_with_parked_flows.
+
+(* ... nor the host's registrations (any outcome) *)
+Theorem evaluate_function_keeps_registrations :
+  forall (I : iface) (sw : switches) (name : text) (args : option (list value)) (w : world),
+    host_regs (snd (evaluate_function I sw name args w)) = host_regs w.
+Proof. exact (fun I sw name args w => HostFrame.evaluate_function_keeps_host_regs I sw name args w). Qed.
+Check evaluate_function_keeps_registrations :
+  forall (I : iface) (sw : switches) (name : text) (args : option (list value)) (w : world),
+    host_regs (snd (evaluate_function I sw name args w)) = host_regs w.
+Print Assumptions evaluate_function_keeps_registrations.
